@@ -20,7 +20,10 @@
   `JVal` without NaN; the harness samples that law on every case.
 -/
 import PdtModel.Model.Json
+import PdtModel.Model.JsonText
 import PdtModel.Lemmas.Text
+import PdtModel.Lemmas.Json
+import PdtModel.Lemmas.JsonText
 import PdtModel.Props.C02
 set_option linter.unusedSimpArgs false
 namespace Pdt.C08
@@ -113,90 +116,7 @@ theorem anyNumKvs_map {α} (bad : Str → Bool) (f : α → Str × JVal) (l : Li
     cases hf : f x with
     | mk k v => simp [anyNumKvs, ih, hf]
 
-section dict
-variable {α β : Type}
 
-theorem dictSet_map (f : α → β) (d : List (Str × α)) (k : Str) (v : α) :
-    (dictSet d k v).map (fun kv => (kv.1, f kv.2)) = dictSet (d.map (fun kv => (kv.1, f kv.2))) k (f v) := by
-  induction d with
-  | nil => rfl
-  | cons kv rest ih =>
-    obtain ⟨k', v'⟩ := kv
-    by_cases h : k' = k <;> simp [dictSet, h, ih]
-
-theorem foldl_dictSet_map (f : α → β) (l acc : List (Str × α)) :
-    (l.foldl (fun d kv => dictSet d kv.1 kv.2) acc).map (fun kv => (kv.1, f kv.2)) =
-    (l.map (fun kv => (kv.1, f kv.2))).foldl (fun d kv => dictSet d kv.1 kv.2) (acc.map (fun kv => (kv.1, f kv.2))) := by
-  induction l generalizing acc with
-  | nil => rfl
-  | cons kv rest ih => simp only [List.foldl_cons, List.map_cons, ih, dictSet_map]
-
-/-- converting the values of a dict commutes with building it by assignments -/
-theorem dictOfList_map (f : α → β) (l : List (Str × α)) :
-    (dictOfList l).map (fun kv => (kv.1, f kv.2)) = dictOfList (l.map (fun kv => (kv.1, f kv.2))) := by
-  unfold dictOfList
-  rw [foldl_dictSet_map]; rfl
-
-theorem dictSet_fresh (d : List (Str × α)) (k : Str) (v : α) (h : k ∉ d.map (·.1)) :
-    dictSet d k v = d ++ [(k, v)] := by
-  induction d with
-  | nil => rfl
-  | cons kv rest ih =>
-    obtain ⟨k', v'⟩ := kv
-    simp only [List.map_cons, List.mem_cons, not_or] at h
-    have hne : ¬ k' = k := fun e => h.1 e.symm
-    simp [dictSet, hne, ih h.2]
-
-theorem foldl_dictSet_nodup (l acc : List (Str × α)) (h : ((acc ++ l).map (·.1)).Nodup) :
-    l.foldl (fun d kv => dictSet d kv.1 kv.2) acc = acc ++ l := by
-  induction l generalizing acc with
-  | nil => simp
-  | cons kv rest ih =>
-    have hk : kv.1 ∉ acc.map (·.1) := by
-      simp only [List.map_append, List.map_cons] at h
-      have := (List.nodup_append.1 h).2.2
-      intro hm
-      exact this kv.1 hm kv.1 (by simp) rfl
-    simp only [List.foldl_cons, dictSet_fresh acc kv.1 kv.2 hk]
-    have : acc ++ [(kv.1, kv.2)] ++ rest = acc ++ kv :: rest := by simp
-    rw [ih (acc ++ [(kv.1, kv.2)]) (by rw [this]; exact h), this]
-
-/-- with pairwise distinct keys, a dict filled by assignments is the list of assignments -/
-theorem dictOfList_nodup (l : List (Str × α)) (h : (l.map (·.1)).Nodup) : dictOfList l = l := by
-  unfold dictOfList
-  simpa using foldl_dictSet_nodup l [] (by simpa using h)
-
-theorem dictSet_forall (P : α → Prop) (d : List (Str × α)) (k : Str) (v : α)
-    (hd : ∀ kv ∈ d, P kv.2) (hv : P v) : ∀ kv ∈ dictSet d k v, P kv.2 := by
-  induction d with
-  | nil => intro kv hkv; simp [dictSet] at hkv; subst hkv; exact hv
-  | cons kv' rest ih =>
-    obtain ⟨k', v'⟩ := kv'
-    intro kv hkv
-    by_cases h : k' = k
-    · simp only [dictSet, h, if_true, List.mem_cons] at hkv
-      rcases hkv with rfl | hkv
-      · exact hv
-      · exact hd kv (List.mem_cons_of_mem _ hkv)
-    · simp only [dictSet, h, if_false, List.mem_cons] at hkv
-      rcases hkv with rfl | hkv
-      · exact hd _ (by simp)
-      · exact ih (fun x hx => hd x (List.mem_cons_of_mem _ hx)) kv hkv
-
-theorem dictOfList_forall (P : α → Prop) (l : List (Str × α)) (h : ∀ kv ∈ l, P kv.2) :
-    ∀ kv ∈ dictOfList l, P kv.2 := by
-  unfold dictOfList
-  suffices ∀ acc : List (Str × α), (∀ kv ∈ acc, P kv.2) →
-      ∀ kv ∈ l.foldl (fun d kv => dictSet d kv.1 kv.2) acc, P kv.2 from this [] (by simp)
-  induction l with
-  | nil => intro acc ha; simpa using ha
-  | cons x xs ih =>
-    intro acc ha
-    simp only [List.foldl_cons]
-    exact ih (fun y hy => h y (List.mem_cons_of_mem _ hy)) _
-      (dictSet_forall P acc x.1 x.2 ha (h x (by simp)))
-
-end dict
 
 /-! ## 3. json_pure: plain JSON without NaN, for every input of to_json_serializable -/
 
@@ -1095,5 +1015,134 @@ theorem nat_not_roundtrip :
 
 /-- and `natTable` violates `WF` only in that clause -/
 example : ¬ WF natTable := by decide
+
+/-! ## 7. the JSON text trip: `json.loads(json.dumps(j, allow_nan=False)) = j`, and the round trip through text
+
+  `dumps` / `loads` are the model of CPython's encoder / decoder on the JsonData domain (Model/JsonText.lean,
+  compared with the real `json` module character by character / value by value on every generated JsonData and
+  on a stream of malformed texts).  `JWF` (Lemmas/JsonText.lean) says what the inverse needs: dict keys pairwise
+  distinct; an integer prints as a JSON integer numeral that `int()` reads back; a float leaf is finite — its
+  `repr` token is a JSON number and `repr(float(token))` is the token again (the codec law, external).  Strings
+  need nothing: a Lean `Char` is a Unicode scalar value, so `Str` cannot hold a lone surrogate — Python strings
+  with lone surrogates are outside the model. -/
+
+open Pdt.JsonText
+
+/-- **loads_dumps**: decoding the encoded text of a well-formed value gives the value back -/
+theorem loads_dumps (cd : NumCodec) (v : JVal) (h : JWF cd v = true) : loads cd (dumps v) = some v := by
+  have hs := dumps_start cd v h
+  have hsk : skipWs (dumps v) = dumps v := by
+    have := skipWs_start (dumps v) [] hs; simpa using this
+  have hp := parseV_dumps cd v h ((dumps v).length + 1) [] (by omega) (by intro c hc; simp at hc)
+  simp only [List.append_nil] at hp
+  unfold loads
+  rw [hsk, hp]
+  simp [skipWs]
+
+theorem JWFList_map {α} (cd : NumCodec) (f : α → JVal) (l : List α) :
+    JWFList cd (l.map f) = l.all (fun x => JWF cd (f x)) := by
+  induction l with
+  | nil => rfl
+  | cons x xs ih => simp [JWFList, ih]
+
+theorem JWFKvs_map {α} (cd : NumCodec) (f : α → Str × JVal) (l : List α) :
+    JWFKvs cd (l.map f) = l.all (fun x => JWF cd (f x).2) := by
+  induction l with
+  | nil => rfl
+  | cons x xs ih =>
+    cases hf : f x with
+    | mk k v => simp [JWFKvs, ih, hf]
+
+/-- the numbers of a table as JSON numerals: every number is finite and satisfies the codec laws -/
+def NumText (cd : NumCodec) (t : TableVal) : Prop :=
+  ∀ c ∈ t.columns, ∀ v ∈ c.values, JWF cd (Spec.leaf v) = true
+
+instance (cd : NumCodec) (t : TableVal) : Decidable (NumText cd t) := by unfold NumText; infer_instance
+
+/-- the JsonData of a well-formed table is a well-formed JSON value -/
+theorem JWF_tableJson (cd : NumCodec) (t : TableVal) (hd : t.destinations.Nodup)
+    (hn : (t.columns.map (·.name)).Nodup) (hnum : NumText cd t) : JWF cd (Spec.tableJson t) = true := by
+  have hdest : JWFKvs cd (t.destinations.map (fun d => (d, JVal.null))) = true := by
+    rw [JWFKvs_map]; simp [JWF]
+  have hcols : JWFKvs cd (t.columns.map Spec.colJson) = true := by
+    rw [JWFKvs_map, List.all_eq_true]
+    intro c hc
+    have hl : JWFList cd (c.values.map Spec.leaf) = true := by
+      rw [JWFList_map, List.all_eq_true]; exact fun v hv => hnum c hc v hv
+    have hk : (["unit".toList, "values".toList] : List Str).Nodup := by decide
+    simp [Spec.colJson, JWF, JWFKvs, hl, hk]
+  have hk3 : (["name".toList, "destinations".toList, "columns".toList] : List Str).Nodup := by decide
+  have hdk : ((t.destinations.map (fun d => (d, JVal.null))).map (·.1)).Nodup := by
+    simpa [List.map_map, Function.comp_def] using hd
+  have hck : ((t.columns.map Spec.colJson).map (·.1)).Nodup := by
+    simpa [List.map_map, Function.comp_def, Spec.colJson] using hn
+  simp [Spec.tableJson, JWF, JWFKvs, hdest, hcols, hk3]
+  exact ⟨by rw [← List.map_map]; exact hdk, by rw [← List.map_map]; exact hck⟩
+
+/-- a JSON number is never an infinity: a table whose numbers are JSON numerals passes the strict encoder -/
+theorem numText_strict (cd : NumCodec) (t : TableVal) (hnum : NumText cd t) :
+    dumpsStrictOk (Spec.tableJson t) = true := by
+  rw [strict_dumps_iff]
+  simp only [Bool.not_eq_true', List.any_eq_false, Bool.not_eq_true]
+  intro c hc v hv
+  have := hnum c hc v hv
+  cases v with
+  | num tok =>
+    simp only [Spec.isInfinite, Bool.or_eq_false_iff, decide_eq_false_iff_not]
+    have notNum : ∀ s : Str, s ≠ "nan".toList → numTok s = false → JWF cd (Spec.leaf (.num s)) = false := by
+      intro s hs hn
+      show JWF cd (if s = "nan".toList then JVal.null else JVal.num s) = false
+      rw [if_neg hs]
+      simp only [JWF, hn, Bool.false_and]
+    constructor
+    · intro e; subst e; rw [notNum _ (by decide) (by decide)] at this; cases this
+    · intro e; subst e; rw [notNum _ (by decide) (by decide)] at this; cases this
+  | _ => rfl
+
+/-- **json_roundtrip_through_text**: for every well-formed table without missing datetimes whose numbers are
+    finite (and satisfy the codec laws), `table_to_json_data` gives a JsonData that the strict encoder accepts,
+    `json.loads` of the encoded text is that JsonData again, and `json_data_to_table` of it rebuilds the table -/
+theorem json_roundtrip_through_text (ext : Ext) (fi : Int → Str) (cd : NumCodec) (t : TableVal)
+    (hwf : WF t) (hco : Codec ext fi t) (hnum : NumText cd t) :
+    ∃ j j', ofTable t = .ok j ∧ dumpsStrictOk j = true ∧ loads cd (dumps j) = some j' ∧
+      toTable ext fi j' = .ok (Spec.observe fi t) := by
+  obtain ⟨j, h1, h2, h3⟩ := json_roundtrip ext fi t hwf hco
+  refine ⟨j, j, h1, ?_, ?_, h3⟩
+  · rw [h2]; exact numText_strict cd t hnum
+  · rw [h2]; exact loads_dumps cd _ (JWF_tableJson cd t hwf.2.2.1 hwf.2.2.2.2.1 hnum)
+
+/-! ### non-vacuity of the text trip -/
+
+/-- `int()` / `repr(float())` for the numerals of the examples -/
+def exampleCd : NumCodec :=
+  ⟨fun s => if s = "-7".toList then -7 else if s = "3".toList then 3 else if s = "-1".toList then -1 else 0,
+   fun s => s⟩
+
+/-- nested dict / list, an astral character (U+1F600), a control character (U+0001), a tab, an escaped quote and
+    backslash, a non-ASCII BMP character, numbers -/
+def exampleJson : JVal :=
+  .obj [("k\"é".toList, .arr [.null, .bool true, .int (-7), .num "1.5e-07".toList, .str ['a', '\x01', '\t', '"', '\\', '😀', 'é']]),
+        ([], .obj [("x".toList, .arr []), ("y".toList, .obj [])])]
+
+example : JWF exampleCd exampleJson = true := by decide
+
+example : dumps exampleJson =
+    "{\"k\\\"\\u00e9\": [null, true, -7, 1.5e-07, \"a\\u0001\\t\\\"\\\\\\ud83d\\ude00\\u00e9\"], \"\": {\"x\": [], \"y\": {}}}".toList := by
+  decide
+
+example : (loads exampleCd (dumps exampleJson)).map dumps = some (dumps exampleJson) := by decide
+
+/-- other legal spellings decode to the same value: no blanks, upper-case hex digits, an escaped solidus -/
+example : (loads exampleCd "{ \"a\\/\\u00E9\":[ 3 ,\n-1 ] }".toList).map dumps =
+    some "{\"a/\\u00e9\": [3, -1]}".toList := by decide
+
+/-- malformed texts are rejected: leading zero, lone surrogate escape, raw control character, trailing comma,
+    the NaN literal -/
+example : loads exampleCd "01".toList = none ∧ loads exampleCd "\"\\ud800\"".toList = none ∧
+    loads exampleCd ['"', '\x01', '"'] = none ∧ loads exampleCd "[3,]".toList = none ∧
+    loads exampleCd "NaN".toList = none := by decide
+
+/-- the text trip of the example table of `json_roundtrip` -/
+example : NumText exampleCd exampleTable := by decide
 
 end Pdt.C08
